@@ -337,8 +337,15 @@ def forced_edges(fn, atom, forbid=None):
             return cache[k]
         ec = fn.edge_cond(b, idx)
         ok = True
+        sc = fn.switch_cond(b) if ec is None else None
+        if sc is not None:
+            try:
+                ok = fn.switch_takes(b, idx, ev(fn, sc, atom))
+            except Unevaluable:
+                ok = True
         if ec is not None:
-            if forbid is not None and forbid(ec[0], ec[1]):
+            rc = fn.edge_cond_resolved(b, idx) if forbid is not None else None
+            if forbid is not None and (forbid(ec[0], ec[1]) or (rc is not None and rc[0] is not ec[0] and forbid(rc[0], rc[1]))):
                 ok = False
             else:
                 try:
@@ -615,3 +622,39 @@ def field_load(field, rec=None):
             return False
         return m is not None and m.k == "MemberExpr" and m.field == field and (rec is None or m.rec == rec)
     return p
+
+
+def returned_local(fn):
+    """declaration id of the local that every value-returning `return` of fn returns (role: the result accumulator), else None"""
+    dids = set()
+    for r in fn.returns():
+        if not r.kids or r.kids[0] is None:
+            continue
+        v = strip(r.kids[0])
+        if v is None or v.k != "DeclRefExpr" or v.dk != "local" or not v.did:
+            return None
+        dids.add(v.did)
+    return dids.pop() if len(dids) == 1 else None
+
+
+def locals_defined_by(fn, pred):
+    """declaration ids of the locals that have a definition (initialiser or assignment) whose value contains a node satisfying pred"""
+    out = []
+    for did, evs in fn.defs().items():
+        for kind, node, val in evs:
+            if kind in ("init", "assign") and val is not None and any(pred(m) for m in val.walk()):
+                if did not in out:
+                    out.append(did)
+    return out
+
+
+def locals_addressed_in(fn, call):
+    """declaration ids of the locals whose address is an argument of `call` (out-parameters)"""
+    out = []
+    for a in fn.args(call):
+        m = strip(a)
+        if m is not None and m.k == "UnaryOperator" and m.op == "&":
+            t = strip(m.kids[0])
+            if t is not None and t.k == "DeclRefExpr" and t.dk == "local" and t.did:
+                out.append(t.did)
+    return out
